@@ -200,7 +200,7 @@ func Generate(r *rand.Rand, k Knobs) *Module {
 		for j := 0; j < na; j++ {
 			p.Anon = append(p.Anon, anonPool[perm[j]])
 		}
-		p.NFiles = 1 + r.IntN(2)
+		p.NFiles = 1 + r.IntN(3)
 		p.CopyFns = r.IntN(3)
 		if r.IntN(3) == 0 {
 			p.AnonT = append(p.AnonT, anonPool[r.IntN(len(anonPool))])
